@@ -1,20 +1,24 @@
-// Command reqview extracts from the current heimdall sources the facts the C09 theorems are stated about and
-// prints them as a Lean module (HeimdallModel/Gen/ReqView.lean). Only go/ast, go/parser, go/token and the
-// standard library are used. The extractor fails closed: a shape it does not recognise aborts with exit code 2.
+// Command reqview extracts from the current heimdall sources the few C09 facts that cannot be observed by running the
+// code, and prints them as JSON. Only go/ast, go/parser, go/token and the standard library are used.
 //
-// Facts:
-//   - stripSet   the literals of `untrustedHeader` (trustedproxy/handler.go), and the proof of shape that New deletes
-//     exactly these names when `!trustedProxies.Contains(...)`
-//   - readSet    every literal header name passed to `<expr>.Header.Get|Values(...)` in the non-test files of
-//     requestcontext/, proxy/ and decision/ (canonicalised)
-//   - mentioned  every string literal of these packages that looks like a forwarding header name
-//     (`Forwarded`, `X-...`), wherever it occurs
-//   - dynamicReaders  functions reading request headers under a computed name (these serve mechanisms)
-//   - outDel/outSet   literals passed to `proxyReq.Out.Header.Del|Set` in proxy/request_context.go
-//   - chainDecision/chainProxy   the middleware constructors of the alice chain of both services, in order
+// Which headers the trusted-proxy middleware deletes, which headers influence the request view and the forwarded
+// headers sent upstream are NOT extracted here any more: they are measured on the running services by
+// tools/props/c09.py (behavioural facts), so that code motion, helper functions, constants, inverted conditions or
+// slices helpers cannot break the tie. What remains syntactic is a deliberately shape-independent inventory:
+//
+//   - mentioned  every string literal (including the values of constants) of the packages trustedproxy,
+//     requestcontext, proxy and decision that looks like a forwarding header name (`Forwarded`, `X-...`), wherever and
+//     however it is used — the candidates whose influence is then measured;
+//   - astReads   every such name that is passed (as literal or as package constant) to a method called Get or Values
+//     or used as a map index — names the code evidently asks a header map for;
+//   - dynamicReaders  functions that ask a `….Header` map for a name that is not a literal or a package constant
+//     (informational: these serve mechanisms, `Header(name)` / `Headers()`).
+//
+// The extractor fails closed only where it cannot read or parse the packages.
 package main
 
 import (
+	"encoding/json"
 	"fmt"
 	"go/ast"
 	"go/parser"
@@ -77,33 +81,64 @@ func strLit(e ast.Expr) (string, bool) {
 	return s, true
 }
 
-// isHeaderSel reports whether e has the shape <expr>.Header (a field selection, not the method call Header()).
+// constTable maps the package level string constants (and string variables initialised once with a literal) of a
+// package to their values.
+func constTable(files map[string]*ast.File) map[string]string {
+	tab := map[string]string{}
+
+	for _, f := range files {
+		for _, d := range f.Decls {
+			gd, ok := d.(*ast.GenDecl)
+			if !ok || (gd.Tok != token.CONST && gd.Tok != token.VAR) {
+				continue
+			}
+
+			for _, sp := range gd.Specs {
+				vs, ok := sp.(*ast.ValueSpec)
+				if !ok {
+					continue
+				}
+
+				for i, n := range vs.Names {
+					if i < len(vs.Values) {
+						if s, ok := strLit(vs.Values[i]); ok {
+							tab[n.Name] = s
+						}
+					}
+				}
+			}
+		}
+	}
+
+	return tab
+}
+
+// resolve gives the string an expression denotes if it is a literal or a package constant
+func resolve(e ast.Expr, consts map[string]string) (string, bool) {
+	if s, ok := strLit(e); ok {
+		return s, true
+	}
+
+	if p, ok := e.(*ast.ParenExpr); ok {
+		return resolve(p.X, consts)
+	}
+
+	if id, ok := e.(*ast.Ident); ok {
+		s, ok := consts[id.Name]
+
+		return s, ok
+	}
+
+	return "", false
+}
+
 func isHeaderSel(e ast.Expr) bool {
 	sel, ok := e.(*ast.SelectorExpr)
 
 	return ok && sel.Sel.Name == "Header"
 }
 
-func exprString(e ast.Expr) string {
-	switch v := e.(type) {
-	case *ast.Ident:
-		return v.Name
-	case *ast.SelectorExpr:
-		return exprString(v.X) + "." + v.Sel.Name
-	case *ast.CallExpr:
-		return exprString(v.Fun) + "()"
-	case *ast.StarExpr:
-		return "*" + exprString(v.X)
-	}
-
-	return "?"
-}
-
 var headerLike = regexp.MustCompile(`^(?i:forwarded|x-[a-z0-9]+(-[a-z0-9]+)*)$`)
-
-type facts struct {
-	strip, read, mentioned, dynamic, outDel, outSet, chainDecision, chainProxy []string
-}
 
 func uniqSorted(in []string) []string {
 	m := map[string]bool{}
@@ -121,154 +156,28 @@ func uniqSorted(in []string) []string {
 	return out
 }
 
-func extractStrip(repo string, fc *facts) {
-	var rawStrip []string
-
-	fset := token.NewFileSet()
-	path := filepath.Join(repo, "internal/handler/middleware/http/trustedproxy/handler.go")
-
-	f, err := parser.ParseFile(fset, path, nil, 0)
-	if err != nil {
-		die("cannot parse %s: %v", path, err)
+func main() {
+	if len(os.Args) != 2 {
+		die("usage: reqview <repo>")
 	}
 
-	found := false
+	repo := os.Args[1]
 
-	for _, d := range f.Decls {
-		gd, ok := d.(*ast.GenDecl)
-		if !ok || gd.Tok != token.VAR {
-			continue
-		}
+	var mentioned, reads, dynamic []string
 
-		for _, sp := range gd.Specs {
-			vs := sp.(*ast.ValueSpec) //nolint:forcetypeassert
-			for i, n := range vs.Names {
-				if n.Name != "untrustedHeader" || i >= len(vs.Values) {
-					continue
-				}
-
-				cl, ok := vs.Values[i].(*ast.CompositeLit)
-				if !ok {
-					die("untrustedHeader is not a composite literal")
-				}
-
-				for _, el := range cl.Elts {
-					s, ok := strLit(el)
-					if !ok {
-						die("untrustedHeader contains a non-literal element")
-					}
-
-					rawStrip = append(rawStrip, s)
-					fc.strip = append(fc.strip, textproto.CanonicalMIMEHeaderKey(s))
-				}
-
-				found = true
-			}
-		}
-	}
-
-	if !found {
-		die("var untrustedHeader not found in trustedproxy/handler.go")
-	}
-
-	// shape: if !<x>.Contains(...) { for _, name := range untrustedHeader { <y>.Header.Del(name) } }
-	shape := false
-
-	ast.Inspect(f, func(n ast.Node) bool {
-		ifs, ok := n.(*ast.IfStmt)
-		if !ok || ifs.Else != nil {
-			return true
-		}
-
-		un, ok := ifs.Cond.(*ast.UnaryExpr)
-		if !ok || un.Op != token.NOT {
-			return true
-		}
-
-		call, ok := un.X.(*ast.CallExpr)
-		if !ok {
-			return true
-		}
-
-		if sel, ok := call.Fun.(*ast.SelectorExpr); !ok || sel.Sel.Name != "Contains" {
-			return true
-		}
-
-		for _, st := range ifs.Body.List {
-			rs, ok := st.(*ast.RangeStmt)
-			if !ok {
-				continue
-			}
-
-			if id, ok := rs.X.(*ast.Ident); !ok || id.Name != "untrustedHeader" {
-				continue
-			}
-
-			val, ok := rs.Value.(*ast.Ident)
-			if !ok {
-				continue
-			}
-
-			for _, bs := range rs.Body.List {
-				es, ok := bs.(*ast.ExprStmt)
-				if !ok {
-					continue
-				}
-
-				c, ok := es.X.(*ast.CallExpr)
-				if !ok {
-					continue
-				}
-
-				// delete(<y>.Header, name): works for names written in canonical form only
-				if id, ok := c.Fun.(*ast.Ident); ok && id.Name == "delete" && len(c.Args) == 2 && isHeaderSel(c.Args[0]) {
-					if arg, ok := c.Args[1].(*ast.Ident); ok && arg.Name == val.Name {
-						for _, s := range rawStrip {
-							if textproto.CanonicalMIMEHeaderKey(s) != s {
-								die("untrustedHeader is deleted with delete(), but %q is not in canonical form", s)
-							}
-						}
-
-						shape = true
-					}
-
-					continue
-				}
-
-				if len(c.Args) != 1 {
-					continue
-				}
-
-				sel, ok := c.Fun.(*ast.SelectorExpr)
-				if !ok || sel.Sel.Name != "Del" || !isHeaderSel(sel.X) {
-					continue
-				}
-
-				if arg, ok := c.Args[0].(*ast.Ident); ok && arg.Name == val.Name {
-					shape = true
-				}
-			}
-		}
-
-		return true
-	})
-
-	if !shape {
-		die("trustedproxy.New: `if !….Contains(…) { for _, n := range untrustedHeader { ….Header.Del(n) } }` not found")
-	}
-}
-
-func extractReads(repo string, fc *facts) {
-	for _, pkg := range []string{"requestcontext", "proxy", "decision"} {
+	for _, pkg := range []string{
+		"internal/handler/middleware/http/trustedproxy", "internal/handler/requestcontext", "internal/handler/proxy",
+		"internal/handler/decision",
+	} {
 		fset := token.NewFileSet()
-		dir := filepath.Join(repo, "internal/handler", pkg)
+		files := parseDir(fset, filepath.Join(repo, pkg))
+		consts := constTable(files)
+		short := filepath.Base(pkg)
 
-		for fname, f := range parseDir(fset, dir) {
+		for _, f := range files {
 			for _, d := range f.Decls {
-				fn, isFn := d.(*ast.FuncDecl)
 				fnName := "<toplevel>"
-
-				if isFn {
+				if fn, ok := d.(*ast.FuncDecl); ok {
 					fnName = fn.Name.Name
 				}
 
@@ -276,60 +185,32 @@ func extractReads(repo string, fc *facts) {
 					switch v := n.(type) {
 					case *ast.BasicLit:
 						if s, ok := strLit(v); ok && headerLike.MatchString(s) {
-							fc.mentioned = append(fc.mentioned, textproto.CanonicalMIMEHeaderKey(s))
+							mentioned = append(mentioned, textproto.CanonicalMIMEHeaderKey(s))
 						}
 					case *ast.CallExpr:
 						sel, ok := v.Fun.(*ast.SelectorExpr)
-						if !ok || !isHeaderSel(sel.X) {
+						if !ok || (sel.Sel.Name != "Get" && sel.Sel.Name != "Values") || len(v.Args) != 1 {
 							return true
 						}
 
-						out := strings.HasSuffix(exprString(sel.X), ".Out.Header")
-
-						switch sel.Sel.Name {
-						case "Get", "Values":
-							if len(v.Args) != 1 {
-								die("%s/%s: %s with %d arguments", pkg, fname, sel.Sel.Name, len(v.Args))
+						if s, ok := resolve(v.Args[0], consts); ok {
+							if headerLike.MatchString(s) {
+								reads = append(reads, textproto.CanonicalMIMEHeaderKey(s))
 							}
-
-							if s, ok := strLit(v.Args[0]); ok {
-								fc.read = append(fc.read, textproto.CanonicalMIMEHeaderKey(s))
-							} else {
-								fc.dynamic = append(fc.dynamic, pkg+"."+fnName)
-							}
-						case "Del", "Set", "Add":
-							if !out && pkg != "proxy" {
-								die("%s/%s: request header modified outside of the proxy's rewriteRequest: %s.%s",
-									pkg, fname, exprString(sel.X), sel.Sel.Name)
-							}
-
-							if len(v.Args) < 1 {
-								die("%s/%s: %s without arguments", pkg, fname, sel.Sel.Name)
-							}
-
-							if s, ok := strLit(v.Args[0]); ok {
-								if sel.Sel.Name == "Del" {
-									fc.outDel = append(fc.outDel, textproto.CanonicalMIMEHeaderKey(s))
-								} else {
-									fc.outSet = append(fc.outSet, textproto.CanonicalMIMEHeaderKey(s))
-								}
-							}
-						case "Clone", "Write", "WriteSubset":
-						default:
-							die("%s/%s: unknown use of a request header map: %s.%s", pkg, fname, exprString(sel.X),
-								sel.Sel.Name)
+						} else if isHeaderSel(sel.X) {
+							dynamic = append(dynamic, short+"."+fnName)
 						}
 					case *ast.IndexExpr:
-						if isHeaderSel(v.X) {
-							if s, ok := strLit(v.Index); ok {
-								fc.read = append(fc.read, textproto.CanonicalMIMEHeaderKey(s))
-							} else {
-								fc.dynamic = append(fc.dynamic, pkg+"."+fnName)
+						if s, ok := resolve(v.Index, consts); ok {
+							if headerLike.MatchString(s) {
+								reads = append(reads, textproto.CanonicalMIMEHeaderKey(s))
 							}
+						} else if isHeaderSel(v.X) {
+							dynamic = append(dynamic, short+"."+fnName)
 						}
 					case *ast.RangeStmt:
 						if isHeaderSel(v.X) {
-							fc.dynamic = append(fc.dynamic, pkg+"."+fnName)
+							dynamic = append(dynamic, short+"."+fnName)
 						}
 					}
 
@@ -338,89 +219,9 @@ func extractReads(repo string, fc *facts) {
 			}
 		}
 	}
-}
 
-func extractChain(repo, pkg string) []string {
-	fset := token.NewFileSet()
-	path := filepath.Join(repo, "internal/handler", pkg, "service.go")
-
-	f, err := parser.ParseFile(fset, path, nil, 0)
-	if err != nil {
-		die("cannot parse %s: %v", path, err)
-	}
-
-	var chain []string
-
-	ast.Inspect(f, func(n ast.Node) bool {
-		call, ok := n.(*ast.CallExpr)
-		if !ok {
-			return true
-		}
-
-		if exprString(call.Fun) != "alice.New" {
-			return true
-		}
-
-		for _, a := range call.Args {
-			switch v := a.(type) {
-			case *ast.CallExpr:
-				chain = append(chain, exprString(v.Fun))
-			default:
-				chain = append(chain, exprString(a))
-			}
-		}
-
-		return false
+	out, _ := json.Marshal(map[string][]string{
+		"mentioned": uniqSorted(mentioned), "astReads": uniqSorted(reads), "dynamicReaders": uniqSorted(dynamic),
 	})
-
-	if len(chain) == 0 {
-		die("%s/service.go: alice.New(...) chain not found", pkg)
-	}
-
-	return chain
-}
-
-func leanList(xs []string) string {
-	q := make([]string, len(xs))
-	for i, x := range xs {
-		q[i] = strconv.Quote(x)
-	}
-
-	return "[" + strings.Join(q, ", ") + "]"
-}
-
-func main() {
-	if len(os.Args) != 2 {
-		die("usage: reqview <repo>")
-	}
-
-	repo := os.Args[1]
-	fc := &facts{}
-
-	extractStrip(repo, fc)
-	extractReads(repo, fc)
-	fc.chainDecision = extractChain(repo, "decision")
-	fc.chainProxy = extractChain(repo, "proxy")
-
-	fmt.Println("/-! GENERATED by extract/reqview from the current heimdall sources on every check run — do not edit. -/")
-	fmt.Println("namespace Heimdall.Gen.ReqView")
-	fmt.Println()
-	fmt.Println("/-- `untrustedHeader` of trustedproxy/handler.go, in source order -/")
-	fmt.Println("def stripSet : List String := " + leanList(fc.strip))
-	fmt.Println("/-- literal names passed to `….Header.Get/Values` in requestcontext/, proxy/, decision/ (sorted) -/")
-	fmt.Println("def readSet : List String := " + leanList(uniqSorted(fc.read)))
-	fmt.Println("/-- every string literal of these packages that looks like a forwarding header name (sorted) -/")
-	fmt.Println("def mentioned : List String := " + leanList(uniqSorted(fc.mentioned)))
-	fmt.Println("/-- functions reading request headers under a computed name (sorted) -/")
-	fmt.Println("def dynamicReaders : List String := " + leanList(uniqSorted(fc.dynamic)))
-	fmt.Println("/-- `proxyReq.Out.Header.Del` literals of rewriteRequest (sorted) -/")
-	fmt.Println("def outDel : List String := " + leanList(uniqSorted(fc.outDel)))
-	fmt.Println("/-- `proxyReq.Out.Header.Set` literals of rewriteRequest (sorted) -/")
-	fmt.Println("def outSet : List String := " + leanList(uniqSorted(fc.outSet)))
-	fmt.Println("/-- middleware constructors of the decision service, in chain order -/")
-	fmt.Println("def chainDecision : List String := " + leanList(fc.chainDecision))
-	fmt.Println("/-- middleware constructors of the proxy service, in chain order -/")
-	fmt.Println("def chainProxy : List String := " + leanList(fc.chainProxy))
-	fmt.Println()
-	fmt.Println("end Heimdall.Gen.ReqView")
+	fmt.Println(string(out))
 }
